@@ -34,6 +34,9 @@ for pid, fl in [("C01","escape"),("C05","control"),("C07","scope"),("C09","inclu
     PROPS[pid] = evalprop(fl)
     PROPS[pid]["lean_modules"] = [pid]
 
+PROPS["C08"] = evalprop("blocks", "Stream 'blocksets' (direct oracle, no model): random acyclic template sets - 2-4 libraries that may import earlier libraries, a layout, an optional middle layout extending it, 1-3 leaves extending either or standing alone, import lists in random order, overlapping definitions of four block names incl. nested definitions (inside other blocks, if, range), parameters with defaults, yields with named arguments in either order or omitted, caller content and default content that print a caller-scope variable the block body shadows; all templates are parsed in a random order in ONE Set and then each is executed; the expected bytes of every template are computed by the generator from the precedence rule. Stream 'tables': effective block table (name -> defining template, line) of every template, real parser vs the model's table construction. Each template of a set also runs through the evaluator model (stream 'eval').")
+PROPS["C08"]["lean_modules"] = ["C08"]
+
 PROPS["C10"] = {
     "lean_modules": ["C10"],
     "rule": "stream 'history': 3-6 programs (residue probes that print yield content / '.' / isset of names other programs bind; programs that fail inside a yield with content, after the content, in a range, in an include with context, in try and catch, in nested yields; random programs of the errors/try/include/scope/blocks/control flavours; constructive-oracle programs), each with its own Set, executed 7-13 times in a random order with repeats inside one worker process on one goroutine (the sync.Pool hands the same Runtime back). Non-trivial = every case (>= 7 calls, at least one probe executed first, again after the others). distinct = distinct history.",
@@ -113,6 +116,11 @@ MANIFEST_TEXT = {
         "level": "Lean 4 theorems: Runtime.isSet, Arguments.IsSet and the isset built-in with >= 1 argument never produce an error or runtime panic, for every expression, data and fuel; zero values are set, nil values are not; a piped argument is judged by its value. Tie: differential execution over access paths valid/invalid at every depth, direct and piped; constructive oracle.",
         "note": "Exactness (true iff every step exists) is covered by correspondence against the implementation and the oracle, not yet by a theorem against an independent existence spec.",
         "technique": "Lean 4 proof about the evaluator model + differential correspondence + constructive direct oracle",
+    },
+    "C08": {
+        "level": "Lean 4 theorems: for every extends table, import list and own definition list the effective block table resolves a name to the template's own last-registered definition, else the latest import that has it, else the extended chain (precedence, by induction over the addBlocks folds; tables have one entry per name); along the links of any template set (tableOf_precedence); an execution runs the root ancestor's body with the executed template's table and top-level lookups go to that table. Tie: block tables of the real parser vs the model on random template sets; differential execution; a constructive oracle that executes every template of a set after parsing them in a random order in one Set.",
+        "note": "Parameter matching by name/defaults and the scope of caller content are covered by the evaluator correspondence and the constructive oracle, not by a dedicated theorem.",
+        "technique": "Lean 4 proof (induction over folds) about a hand-written model + differential correspondence (tables and execution) + constructive direct oracle",
     },
     "C10": {
         "level": "Machine-checked Lean 4 theorem over all histories: the pooled Runtime's reset discipline (assign at the top of Execute, reset in the deferred recover before Put) leaves no field an execution can observe holding a value from an earlier execution, however that earlier execution ended; the coverage premise is decided by the kernel over the field lists factgen regenerates from eval.go/exec.go each run, so a new field, a dropped reset or a missing defer breaks the proof. Tie: the real Execute run in random histories (failing yields with content, ranges, includes, try) on one goroutine vs the stateless evaluator model, plus a model-independent same-call-same-result oracle and a structural hash of every template before/after.",
